@@ -3,7 +3,10 @@ package main
 import (
 	"context"
 	"fmt"
+	"runtime"
 	"strings"
+	"sync/atomic"
+	"time"
 
 	"github.com/tychoish/fun"
 )
@@ -42,6 +45,12 @@ func c14case(s *Sexp) string {
 		wg.Add(1)
 		return probeLostCancel(func(ctx context.Context) string { wg.Wait(ctx); return "ok" })
 	}
+	if s.Head() == "wgacct" {
+		return wgAcctCase(s)
+	}
+	if s.Head() == "wgstress" {
+		return wgStressCase(s)
+	}
 	if s.Head() != "wg" {
 		return "bad-op"
 	}
@@ -51,6 +60,117 @@ func c14case(s *Sexp) string {
 	defer sc.close()
 	out := sc.run(choices, 200)
 	return strings.ReplaceAll(out, "\n", " ")
+}
+
+// (wgacct (via launch|dotimes|opadd|startgroup) (kinds ret|goexit ...)): the goroutines started through the
+// WaitGroup's launch helpers are accounted for while they run and when they end, however they end
+// (an operation that leaves through runtime.Goexit — what t.Fatal/t.SkipNow do — still counts as done).
+var acctStuck atomic.Int64
+
+func wgAcctCase(s *Sexp) string {
+	via := sxStr(s, "via")
+	var kinds []string
+	for _, x := range s.Args() {
+		if x.Head() == "kinds" {
+			for _, k := range x.List[1:] {
+				kinds = append(kinds, k.Atom)
+			}
+		}
+	}
+	n := len(kinds)
+	wg := &fun.WaitGroup{}
+	ctx, cancel := context.WithCancel(context.Background())
+	defer cancel()
+	gate := make(chan struct{})
+	started := make(chan int, n)
+	exited := make(chan int, n)
+	var next atomic.Int64
+	op := fun.Operation(func(context.Context) {
+		idx := int(next.Add(1)) - 1
+		defer func() { exited <- idx }()
+		started <- idx
+		<-gate
+		if idx < n && kinds[idx] == "goexit" {
+			runtime.Goexit()
+		}
+	})
+	switch via {
+	case "launch":
+		for i := 0; i < n; i++ {
+			wg.Launch(ctx, op)
+		}
+	case "dotimes":
+		wg.DoTimes(ctx, n, op)
+	case "opadd":
+		for i := 0; i < n; i++ {
+			op.Add(ctx, wg)
+		}
+	case "startgroup":
+		op.StartGroup(ctx, wg, n)
+	default:
+		return "bad-op"
+	}
+	for i := 0; i < n; i++ {
+		<-started
+	}
+	running := wg.Num()
+	close(gate)
+	for i := 0; i < n; i++ {
+		<-exited
+	}
+	// the deferred Done of each goroutine runs right after its `exited` message: wait for the
+	// counter to drain (generous deadline; only a lost Done makes this expire)
+	deadline := 8 * time.Second
+	if acctStuck.Load() > 0 {
+		deadline = time.Second // a lost Done is already established in this process
+	}
+	wctx, wcancel := context.WithTimeout(ctx, deadline)
+	wg.Wait(wctx)
+	stuck := wctx.Err() != nil
+	wcancel()
+	if stuck {
+		acctStuck.Add(1)
+	}
+	return fmt.Sprintf("acct n=%d running=%d after=%d waitstuck=%s", n, running, wg.Num(), bit(stuck))
+}
+
+// (wgstress (rounds R) (waiters W)): R rounds of "counter 1; W goroutines enter Wait with a live
+// context while another goroutine calls Done": every Wait must return (a Done that lands while a
+// waiter is between looking at the counter and parking must not be lost). Free-running.
+func wgStressCase(s *Sexp) string {
+	rounds, waiters := sxInt(s, "rounds", 20000), sxInt(s, "waiters", 2)
+	if p := runtime.GOMAXPROCS(0); p < 4 {
+		defer runtime.GOMAXPROCS(runtime.GOMAXPROCS(4))
+	}
+	for r := 0; r < rounds; r++ {
+		wg := &fun.WaitGroup{}
+		wg.Add(1)
+		ctx, cancel := context.WithCancel(context.Background())
+		done := make(chan struct{}, waiters)
+		start := make(chan struct{})
+		for w := 0; w < waiters; w++ {
+			go func() {
+				<-start
+				wg.Wait(ctx)
+				done <- struct{}{}
+			}()
+		}
+		go func() {
+			<-start
+			wg.Done()
+		}()
+		close(start)
+		for w := 0; w < waiters; w++ {
+			select {
+			case <-done:
+			case <-time.After(12 * time.Second):
+				cancel()
+				return fmt.Sprintf("stress stuck=1 round=%d num=%d", r, wg.Num())
+			}
+		}
+		cancel()
+	}
+	return "stress stuck=0"
 }
 
 func init() {
